@@ -394,7 +394,7 @@ Proof.
   - (* set capacity *) destruct H as [Hl Hd]. apply Hsoc; tsimp; try reflexivity; [now rewrite chans_set_chan, length_upd|].
     intros c. destruct (Nat.eq_dec c (s_ch st)) as [->|Hne]; [|rewrite chan_at_set_other by assumption; apply soc_refl].
     destruct (inv_stream _ _ I _ _ Hl) as (Hc & _). rewrite chan_at_set_same by assumption. apply soc_grow.
-  - apply Hsame; try reflexivity. tauto.
+  - (* async drop starts: as drop *) destruct H as [Hl Hd]. exact (own_bury s sid st O Hl).
   - destruct H as [Hl Hd]. exact (own_bury s sid st O Hl).
   - (* async drop, subs, done *) pose proof (rm_apply_frame _ _ _ _ H3) as (_ & Estr & Eadd & _).
     assert (O1 : own_cur s1 /\ own_stream s1).
@@ -498,7 +498,10 @@ Proof.
     assert (Ha : a2 s sid0 r0 c0) by exact Ha'. destruct (inv_a2 _ _ I _ _ _ Ha) as (F1 & F2 & F3 & F4 & F5 & F6 & F7). destruct H as [Hl Hd].
     unfold a2_facts. tsimp. autorewrite with chat. rewrite chans_set_chan, length_upd. rewrite chan_at_set_other by (apply not_eq_sym; eauto).
     repeat split; try assumption; lia.
-  - exact (inv_a2 _ _ I _ _ _ Ha').
+  - (* async drop of a rule stream: as drop *)
+    assert (Ha : a2 s sid0 r0 c0) by exact Ha'. destruct (inv_a2 _ _ I _ _ _ Ha) as (F1 & F2 & F3 & F4 & F5 & F6 & F7). destruct H as [Hl Hd].
+    unfold a2_facts. tsimp. autorewrite with chat. rewrite chans_bury, streams_bury, length_upd. rewrite chan_at_set_other by (apply not_eq_sym; eauto).
+    repeat split; try assumption; try lia. intros sid' st' Hst. apply in_del_lookup in Hst. eauto.
   - (* async drop of an unfiltered stream *)
     assert (Ha : a2 s sid0 r0 c0) by exact Ha'. destruct (inv_a2 _ _ I _ _ _ Ha) as (F1 & F2 & F3 & F4 & F5 & F6 & F7). destruct H as [Hl Hd].
     unfold a2_facts. tsimp. autorewrite with chat. rewrite chans_bury, streams_bury, length_upd. rewrite chan_at_set_other by (apply not_eq_sym; eauto).
@@ -586,7 +589,7 @@ Proof.
     apply (closed_upd s (s_ch st) (clone_rcv sid sid2 (chan_at s (s_ch st))) Hold Hlt (closed_clone _ _ _ _) (Hnorcv _ _ Hl)); [reflexivity | reflexivity | exact Hsubs_same].
   - (* set capacity *) destruct H as [Hl Hd]. destruct (Istr _ _ Hl) as (Hlt & _).
     apply (closed_upd s (s_ch st) (grow n (chan_at s (s_ch st))) Hold Hlt eq_refl (Hnorcv _ _ Hl)); [reflexivity | reflexivity | exact Hsubs_same].
-  - exact Hold.
+  - (* async drop starts: as drop *) destruct H as [Hl Hd]. exact (closed_bury s sid st Hold Istr Hl).
   - destruct H as [Hl Hd]. exact (closed_bury s sid st Hold Istr Hl).
   - (* async drop, subs, done *)
     pose proof (closed_rm_apply _ _ _ _ I H3) as Hc1. pose proof (rm_apply_frame _ _ _ _ H3) as (_ & Estr & Eadd & _).
